@@ -248,6 +248,14 @@ def _catalog():
         lambda l: M.ellipse_from_second_moments_ijv(np.argwhere(l > 0)[:, 0], np.argwhere(l > 0)[:, 1],
                                                     np.ones(int(np.sum(l > 0))), l[l > 0].astype(int), idx, True))
     add("life-it3", "cpmorphology.life", "B", lambda b: M.life(b, iterations=3))
+    # calls on 1x1 .. 2x3 arrays of their own (small blocks come and go on the heap between other calls)
+    for hk in (1, 2, 3, 7):
+        add("tiny:outline-%d" % hk, "outline.outline", "", lambda hk=hk: OL.outline(np.full((1, hk), 2, np.int32)))
+        add("tiny:relabel-%d" % hk, "cpmorphology.relabel", "", lambda hk=hk: M.relabel(np.full((hk, 3), 2, np.int32)))
+    add("tiny:table_lookup", "cpmorphology.table_lookup", "",
+        lambda: M.table_lookup(np.ones((1, 3), bool), np.arange(512) % 2 == 0, False, 1))
+    add("tiny:color_labels", "cpmorphology.color_labels", "", lambda: M.color_labels(np.full((1, 2), 1, np.int32)))
+    add("tiny:convex_hull", "cpmorphology.convex_hull", "", lambda: M.convex_hull(np.full((1, 1), 2, np.int32), [2]))
     # --- every optional / auxiliary array-like parameter driven by a caller-owned array of the history
     for nm in "grey_erosion grey_dilation opening closing white_tophat black_tophat".split():
         add(nm + "+fp", "cpmorphology." + nm, "If", lambda a, fp, f=getattr(M, nm): f(a, footprint=fp))
@@ -647,7 +655,11 @@ def catalog():
         hand = [c for c in _catalog() if c is not None]
         auto, skipped = _auto_catalog()
         _AUTO_SKIPPED[:] = skipped
-        _CAT = hand + auto
+        base = hand + auto
+        # every call that takes an index list also with each index list that repeats entries
+        reps = [(key + "~idx" + rr, fn, roles.replace("x", rr), f) for key, fn, roles, f in base if "x" in roles
+                for rr in REPEAT_ROLES]
+        _CAT = base + reps
     return _CAT
 
 
@@ -713,6 +725,13 @@ def drives_main():
     catd = {c[0]: c for c in cat}
     out, info = {}, {}
     for c in cat:
+        if "~idx" in c[0]:
+            # same call as its base with the index list replaced (and possibly the known out-of-bounds read F36,
+            # which may not return): the drives are those of the base call
+            b = c[0].split("~idx")[0]
+            out[c[0]] = [[q, pn, (c[0][-1] if r == "x" else r)] for q, pn, r in out.get(b, [])]
+            info[c[0]] = [0.0, "", "derived from " + b]
+            continue
         state["seen"] = set()
         t0 = time.time()
         r = _exec_call(catd, [c[0], 0], pool)
@@ -772,6 +791,12 @@ SMALL = {
     "S": (lambda: np.array([[1, 1, 1], [0, 0, 0], [0, 0, 0]]), ["bool", "bool", "uint8", "int64"]),   # 2nd strel
     "T": (lambda: np.array([[0, 0, 0], [0, 1, 0], [1, 1, 1]]), ["bool", "bool", "uint8", "int64"]),   # 1st strel
     "x": (lambda: np.array([1, 2, 3]), ["int32"] + _INTS),                                      # index list
+    # index lists with REPEATED entries (nothing in the docstrings forbids them): adjacent repeat, the
+    # largest label requested twice apart, twice at the end, a repeated absent label
+    "1": (lambda: np.array([1, 2, 2, 3]), ["int32"] + _INTS),
+    "2": (lambda: np.array([3, 1, 3]), ["int32"] + _INTS),
+    "3": (lambda: np.array([1, 2, 3, 3]), ["int32"] + _INTS),
+    "4": (lambda: np.array([1, 7, 7]), ["int32"] + _INTS),
     "t": (lambda: (np.arange(512) % 3 == 0) & ((np.arange(512) & 16) != 0), ["bool", "bool", "uint8", "int32", "int64"]),
     "k": (lambda: np.array([[1, 2, 1], [2, 4, 2], [1, 2, 1]]) / 16.0, _FLTS),                   # convolution kernel
     "o": (lambda: np.array([1, 1]), ["int64", "int32", "int64", "uint8"]),                      # footprint offset
@@ -814,6 +839,7 @@ for _r, (_g, _d) in SMALL.items():
     ROLE_DTYPES[_r] = _d
 
 ROLES = "IBMLpqr" + "".join(sorted(SMALL))
+REPEAT_ROLES = "1234"
 
 # arguments that are OBJECTS holding arrays: built once per history (by the library's own constructors, the same
 # way in the history process and in every fresh-interpreter reference), shared by the calls of the history,
@@ -846,7 +872,11 @@ VALUE_CLASSES = ["smooth", "quantised", "zerobg", "constant", "nan", "tinyrange"
 def _content(role, shape, rng, vclass=None):
     H, W = shape
     if role in SMALL:
-        return SMALL[role][0]()
+        a = SMALL[role][0]()
+        if role in REPEAT_ROLES and vclass == "dedup":        # control experiment of the F36 attribution
+            _, first = np.unique(a, return_index=True)
+            a = a[np.sort(first)]
+        return a
     if role in "pqr":
         return np.round(rng.rand(2) * 20 + {"p": 0, "q": 3, "r": 7}[role], 0)
     if role == "I":
@@ -1301,6 +1331,11 @@ def _fork(fn, timeout=60):
                 pass
             signal.alarm(0)
             signal.signal(signal.SIGALRM, signal.SIG_DFL)
+            try:                                    # a runaway call must not exhaust the machine's memory
+                import resource
+                resource.setrlimit(resource.RLIMIT_AS, (6 << 30, 6 << 30))
+            except Exception:
+                pass
             try:
                 res = fn()
             except BaseException as e:              # noqa
@@ -1394,11 +1429,15 @@ def impl(case):
     for k in twin:
         jobs.append(lambda k=k: _run_history(case, only=k, scramble=case["scramble"] + 104729 * (k + 1), light=True,
                                              canon=True, ser=True)[0])
-    res = _parallel(jobs, width=int(os.environ.get("C20_WIDTH", "4")), timeout=FORK_TIMEOUT)
+    # histories that contain a call with the F36 predicate (known out-of-bounds read, heap dependent: garbage
+    # hull vertices can send the callers into very long loops) get a short time limit and no second chance:
+    # the failure goes to the attribution (call site + predicate + control experiment)
+    has_f36 = any(_f36_call(case, c, cat[c[0]][2], cat[c[0]][1]) for c in case["calls"] if c[0] in cat)
+    res = _parallel(jobs, width=int(os.environ.get("C20_WIDTH", "4")), timeout=8 if has_f36 else FORK_TIMEOUT)
     # a crashed child is run once more: only a crash that repeats is charged to the library
     out_flaky = 0
     for i, r in enumerate(res):
-        if isinstance(r, dict) and "crash" in r:
+        if isinstance(r, dict) and "crash" in r and not has_f36:
             r2 = _parallel([jobs[i]], width=1, timeout=FORK_TIMEOUT)[0]
             if not (isinstance(r2, dict) and "crash" in r2):
                 res[i] = r2
@@ -1591,6 +1630,19 @@ def generate(ctx):
                     calls.append([str(rng.choice(okeys)), si])
             cases.append(_mk_case(ctx, rng, cat, calls=calls))
             ctx.count("object_histories")
+    # index lists with repeated entries, after calls on tiny arrays of their own (heap history)
+    tiny = [c[0] for c in cat if c[0].startswith("tiny:")]
+    repk = [c[0] for c in cat if "~idx" in c[0]]
+    fam = [c[0] for c in cat if "~idx" in c[0] and c[1] in F36_FAMILY]
+    for rep_ in range(ctx.n(16, 300)):
+        si = _pick_set(rng, 3)
+        calls = []
+        for _ in range(int(rng.randint(2, 5))):
+            for _ in range(int(rng.randint(0, 4))):
+                calls.append([str(rng.choice(tiny)), 0])
+            calls.append([str(rng.choice(fam if rng.rand() < 0.5 else repk)), si if rng.rand() < 0.7 else _pick_set(rng, 3)])
+        cases.append(_mk_case(ctx, rng, cat, calls=calls[:12]))
+        ctx.count("index_repeat_histories")
     for _ in range(ctx.n(120, 2000)):
         cases.append(_mk_case(ctx, rng, cat))
         ctx.count("random")
@@ -1773,6 +1825,121 @@ def search_cases(ctx, rnd):
 
 # calls left out of the layout-independence clause (none so far); each exclusion is counted in the evidence
 LAYOUT_EXCLUDED = {}
+
+
+# ---- known finding F36 (C20, also C19): _convex_hull.pyx reads one row past its sorted (i, j, label) buffer
+# (`labels_ijv[pixidx, 2]` with pixidx == shape[0], boundscheck off) when the index list requests the largest label
+# again after the request that consumed the last row; what it finds there is whatever earlier calls left on the
+# heap.  Compiled code: cannot be repaired here.  Attribution is by call site AND argument predicate AND a control
+# experiment, never a blanket mute.
+F36_FAMILY = {"cpmorphology.convex_hull", "cpmorphology.convex_hull_ijv", "cpmorphology.minimum_enclosing_circle",
+              "cpmorphology.calculate_convex_hull_areas", "cpmorphology.calculate_solidity", "zernike.zernike"}
+
+
+def _f36_call(case, call, roles, fn):
+    """is this call in the convex-hull family with an index list that repeats the largest requested label that
+    is present in its label input?"""
+    if fn not in F36_FAMILY:
+        return False
+    rr = [r for r in roles if r in REPEAT_ROLES]
+    if not rr or case.get("vc", {}).get("%s%d" % (rr[0], call[1])) == "dedup":
+        return False
+    idx = [int(v) for v in SMALL[rr[0]][0]()]
+    lab_role = "L" if "L" in roles else ("J" if "J" in roles else None)
+    if lab_role is None:
+        return False
+    key = "%s%d" % (lab_role, call[1])
+    pool, _ = build_pool(_norm(dict(case, used=[key])), only_keys={key})
+    lab = pool[key]
+    present = set(np.unique(lab[:, 2] if lab_role == "J" else lab).tolist()) - {0}
+    req = [v for v in idx if v in present]
+    return bool(req) and idx.count(max(req)) >= 2
+
+
+def attribute(ctx, case, out, clause):
+    """F36 iff (a) the clause is a result difference (vs history / fresh interpreter / C-contiguous twin) or a
+    crash, (b) the differing call - or, when the history process died, some call of the history - is a
+    convex-hull-family call whose index list repeats the largest requested label present, and (c) the same
+    history with the repeats removed from the index lists passes.  Everything else stays a violation."""
+    import re
+    if not clause or "modified its input" in clause or "writes into the writable twin" in clause:
+        return None
+    cat = {c[0]: c for c in _catalog_index(ctx)}
+    m = re.match(r"call (\d+) \(", clause)
+    if m:
+        ks = [int(m.group(1))]
+    elif "died" in clause or "could not be run" in clause:
+        ks = list(range(len(case["calls"])))
+    else:
+        return None
+    hit = [k for k in ks if k < len(case["calls"]) and case["calls"][k][0] in cat
+           and _f36_call(case, case["calls"][k], cat[case["calls"][k][0]][2], cat[case["calls"][k][0]][1])]
+    if not hit:
+        return None
+    ctl = json.loads(json.dumps(case))
+    ctl.setdefault("vc", {})
+    for si in range(len(ctl["shapes"])):
+        for r in REPEAT_ROLES:
+            ctl["vc"]["%s%d" % (r, si)] = "dedup"
+    o2 = ctx.run_impl([ctl])[0]
+    if _check_one(ctl, o2) is not None:
+        return None
+    ctx.count("F36.attributed")
+    return "F36"
+
+
+_F36_CODE = r"""
+import sys, json, warnings
+warnings.simplefilter("ignore")
+import numpy as np
+import centrosome.cpmorphology as M
+import centrosome.outline as OL
+w = json.loads(sys.argv[1]); hist, rep = int(sys.argv[2]), int(sys.argv[3])
+bad, n = [], 0
+for V in list(range(1, w["max_label"])) + w["extra_labels"]:
+    for blk in w["blocks"]:
+        if hist:        # two public calls on tiny arrays of their own before every convex_hull call
+            a = OL.outline(np.full((1, blk[1]), V, np.int32)); b = M.relabel(np.full((blk[0], 3), V, np.int32)); del a, b
+        labels = np.zeros(tuple(w["labels_shape"]), np.int32)
+        labels[1:1 + blk[0], 1:1 + blk[1]] = V
+        indexes = np.array([V] * rep, np.int32)
+        before = (labels.tobytes(), indexes.tobytes())
+        pts, counts = M.convex_hull(labels, indexes)
+        assert before == (labels.tobytes(), indexes.tobytes())
+        n += 1
+        if (rep > 1 and counts[1] != 0) or len(pts) != counts.sum():
+            bad.append([V, list(blk), pts.tolist()[-2:], counts.tolist()])
+print("F36OUT", json.dumps({"n": n, "nbad": len(bad), "bad": bad[:4]}))
+"""
+
+
+def reproduce_finding(ctx, finding):
+    """does the recorded witness still show?  The witness is a sequence of convex_hull(labels, [V, V]) calls (one
+    rectangular object of label V, the largest label requested twice) over many V and object sizes, run in true
+    fresh interpreters once on its own and once with two public calls on tiny arrays (outline, relabel) before
+    every call, plus the same two runs with the repeat removed as control.  It reproduces when a run with the
+    repeat crashes (heap corruption / SIGSEGV), returns a vertex for the repeated request, or the two runs differ,
+    while both control runs are clean."""
+    if finding.get("id") != "F36":
+        return False
+    w = finding["witness"]["sweep"]
+
+    def run(hist, rep):
+        try:
+            o = ctx.run_staged_python(_F36_CODE, timeout=300, args=[json.dumps(w), str(hist), str(rep)])
+            line = [l for l in o.splitlines() if l.startswith("F36OUT ")]
+            return json.loads(line[-1][7:]) if line else "no output"
+        except Exception as e:
+            return "crashed: " + (str(e)[-120:] or "no message")
+    from concurrent.futures import ThreadPoolExecutor
+    with ThreadPoolExecutor(max_workers=4) as ex:
+        r = list(ex.map(lambda a: run(*a), [(0, 2), (1, 2), (0, 1), (1, 1)]))
+    alone, after, c0, c1 = r
+    ctl_clean = all(isinstance(c, dict) and c["nbad"] == 0 for c in (c0, c1))
+    shows = any(isinstance(x, str) or x["nbad"] != 0 for x in (alone, after)) or alone != after
+    ctx.note("F36 witness: alone -> %s; after tiny-array calls -> %s; without the repeat -> %s / %s" % (
+        str(alone)[:100], str(after)[:100], str(c0)[:60], str(c1)[:60]))
+    return bool(shows and ctl_clean)
 
 
 def _bad(o):
@@ -2040,8 +2207,9 @@ MANIFEST = {
         "(only constant tables cached, fills dominate reads, literal seed dominates every global draw, no entropy) are "
         "discharged by kernel computation on the generated table, and each is shown necessary by a refuting witness. "
         "The no-mutation clause has no theorem: it is decided by byte-for-byte (plus shape/strides/dtype/flags) "
-        "comparison of every shared input after every call of random call histories over 132 public functions in "
-        "six dtypes and four memory layouts, with each result compared exactly against the same call in a fresh "
+        "comparison of every shared input (arrays and array-holding objects, deep) after every call of random call "
+        "histories over the public functions of the eleven modules (calls synthesised from every signature plus a "
+        "hand-written catalog, every optional-argument pattern) in six dtypes and five memory layouts, with each result compared exactly against the same call in a fresh "
         "interpreter; statically, the translator's list of candidate in-place writes to parameters must be empty "
         "outside the documented in-place helpers."),
     "level_note": (
@@ -2049,7 +2217,12 @@ MANIFEST = {
         "tables, hand-written write sets of the compiled kernels) - its claim that a body sees only what the signature "
         "lists is modelled, not verified, and is what the history replay tests; extraction (ExtrOcamlBasic only) and "
         "the driver; the Python harness; fork-after-import as fresh interpreter (cross-checked against subprocesses). "
-        "Mutation of caller arrays is outside the theorems (DESIGN.md section 8)."),
+        "Mutation of caller arrays is outside the theorems (DESIGN.md section 8). Known finding F36 (also C19): the "
+        "compiled convex-hull kernel reads one row past its buffer when the index list requests the largest label "
+        "twice, so convex_hull / convex_hull_ijv / minimum_enclosing_circle / calculate_convex_hull_areas / "
+        "calculate_solidity / zernike results then depend on the call history (garbage vertex, hang, heap corruption); "
+        "not repairable here (no Cython); reported as KNOWN-FINDING, attributed by call site + repeated-largest-label "
+        "predicate + a control run without the repeat, everything else stays a violation."),
     "technique": "Coq proof over generated effect signatures (translator) + exact history replay against fresh interpreters",
     "design_ref": "DESIGN.md section 7, C20; section 3.2 (gen_effects); section 8",
 }
